@@ -4,8 +4,19 @@ use brood::entity;
 use brood::world::verif::VerifDump;
 use serde_assert::Tokens;
 
+pub struct QOut {
+    pub rows: Vec<String>,
+    pub hint_errors: Vec<String>,
+}
+pub type QFn<W> = fn(&mut W, u8, Option<u64>) -> QOut;
+/// `Err(())`: `entry()` was `None`; `Ok(None)`: the query's filter rejected the entity.
+pub type EFn<W> = fn(&mut W, entity::Identifier) -> Result<Option<String>, ()>;
+
 pub trait Family {
-    type W;
+    fn queries() -> &'static [(&'static str, &'static str, QFn<Self::W>)];
+    fn entryqs() -> &'static [(&'static str, &'static str, EFn<Self::W>)];
+    fn entries() -> &'static [(&'static str, &'static str, &'static str, &'static str, &'static str, EFn<Self::W>)];
+    type W: 'static;
     const N: usize;
     const KINDS: &'static str;
     const RES_KINDS: &'static str;
